@@ -37,6 +37,7 @@ pub fn blocks(thorough: bool) -> Vec<Block> {
         b.push(Block::new(Universe::new("U_adv(units)", &units, 4, 1, false), thr(&[0, E, W, X, E | X], &[(1, 1), (1, 2)]), "r x {{}, e, w, x, e+x} x {(1,1),(1,2)}"));
         b.push(Block::new(Universe::new("U_adv(A_esc)", A_ESC, 3, 1, false), thr(&[0, E], &[(1, 1)]), "r x {{}, e}"));
         b.push(Block::new(Universe::new("U_a1-{a,1,-}", &["a", "1", "-"], 3, 2, false), thr(&[D | NW, W, D], &[(1, 1)]), "r x {d+W, w, d}"));
+        b.push(Block::new(Universe::new("U_tok{\\d,1,\\,d}", &["\\d", "1", "\\", "d"], 3, 2, false), thr(&[D, D | W, NW], &[(1, 1)]), "r x {d, d+w, W}"));
     } else {
         b.push(Block::new(Universe::new("U_ab3{a,b}", &["a", "b"], 3, 0, true), thr(&[0], &grid44), "r x thresholds 1..=4 x 1..=4 + (50,1),(1,50)"));
         b.push(Block::new(Universe::new("U_ab3{a,b}", &["a", "b"], 3, 0, true), thr(&bases_all, &[(1, 1), (2, 1)]), "r x 9 bases x {(1,1),(2,1)}"));
@@ -48,6 +49,7 @@ pub fn blocks(thorough: bool) -> Vec<Block> {
         b.push(Block::new(Universe::new("U_adv(units)", &units, 4, 2, false), thr(&[0, E, W, X, E | X, G], &[(1, 1), (1, 2), (2, 1)]), "r x 6 bases x 3 thresholds"));
         b.push(Block::new(Universe::new("U_adv(A_esc)", A_ESC, 3, 2, false), thr(&[0, E], &[(1, 1)]), "r x {{}, e}"));
         b.push(Block::new(Universe::new("U_a1-{a,1,-}", &["a", "1", "-"], 4, 3, false), thr(&[D | NW, W, D], &[(1, 1)]), "r x {d+W, w, d}"));
+        b.push(Block::new(Universe::new("U_tok{\\d,1,\\,d}", &["\\d", "1", "\\", "d"], 4, 2, false), thr(&[D, D | W, NW, D | NS], &[(1, 1), (2, 1)]), "r x {d, d+w, W, d+S} x {(1,1),(2,1)}"));
     }
     b
 }
